@@ -38,15 +38,25 @@ type pnCase struct {
 	Doc   pnURL    `json:"doc"`
 }
 
-func pnString(u pnURL, grid bool) string {
+// pnString renders an abstract URL; fam is the link family of the pager (it decides what "base" is).
+func pnString(u pnURL, fam string) string {
 	switch u.K {
+	case "file":
+		return fmt.Sprintf("https://%s/zqs/view-%d.html", pagerHost, u.Y)
+	case "q":
+		return fmt.Sprintf("https://%s/zqs/view?pg=%d", pagerHost, u.Y)
+	case "q2":
+		return fmt.Sprintf("https://%s/zqs/view?pg=%d&x=%d", pagerHost, u.X, u.Y)
 	case "grid":
 		return fmt.Sprintf("https://%s/zqs/%d/%d", pagerHost, u.X, u.Y)
 	case "one":
 		return fmt.Sprintf("https://%s/zqs/view/%d", pagerHost, u.Y)
 	case "base":
-		if grid {
+		switch fam {
+		case "grid":
 			return "https://" + pagerHost + "/zqs"
+		case "file":
+			return "https://" + pagerHost + "/zqs/view.html"
 		}
 		return "https://" + pagerHost + "/zqs/view"
 	case "js":
@@ -58,6 +68,11 @@ func pnString(u pnURL, grid bool) string {
 var (
 	rxPnGrid = regexp.MustCompile(`^https://example\.com/zqs/(\d+)/(\d+)$`)
 	rxPnOne  = regexp.MustCompile(`^https://example\.com/zqs/view/(\d+)$`)
+	rxPnFile = regexp.MustCompile(`^https://example\.com/zqs/view-(\d+)\.html$`)
+	rxPnQ    = regexp.MustCompile(`^https://example\.com/zqs/view\?pg=(\d+)$`)
+	rxPnQ2   = regexp.MustCompile(`^https://example\.com/zqs/view\?pg=(\d+)&x=(\d+)$`)
+	rxPnPatA = regexp.MustCompile(`^https://example\.com/zqs/view\?pg=\[\*!\]&x=(\d+)$`)
+	rxPnPatB = regexp.MustCompile(`^https://example\.com/zqs/view\?pg=(\d+)&x=\[\*!\]$`)
 	rxPnPatX = regexp.MustCompile(`^https://example\.com/zqs/\[\*!\]/(\d+)$`)
 	rxPnPatY = regexp.MustCompile(`^https://example\.com/zqs/(\d+)/\[\*!\]$`)
 )
@@ -78,13 +93,27 @@ func pnAbstract(s string) pnURL {
 		y, _ := strconv.Atoi(m[1])
 		return pnURL{K: "one", Y: y}
 	}
-	if s == "https://"+pagerHost+"/zqs" || s == "https://"+pagerHost+"/zqs/view" {
+	if m := rxPnFile.FindStringSubmatch(s); m != nil {
+		y, _ := strconv.Atoi(m[1])
+		return pnURL{K: "file", Y: y}
+	}
+	if m := rxPnQ.FindStringSubmatch(s); m != nil {
+		y, _ := strconv.Atoi(m[1])
+		return pnURL{K: "q", Y: y}
+	}
+	if m := rxPnQ2.FindStringSubmatch(s); m != nil {
+		x, _ := strconv.Atoi(m[1])
+		y, _ := strconv.Atoi(m[2])
+		return pnURL{K: "q2", X: x, Y: y}
+	}
+	if s == "https://"+pagerHost+"/zqs" || s == "https://"+pagerHost+"/zqs/view" || s == "https://"+pagerHost+"/zqs/view.html" {
 		return pnURL{K: "base"}
 	}
 	return pnURL{K: "other"}
 }
 
 func pnPattern(s string) map[string]interface{} {
+	s = strings.ReplaceAll(s, "%5B%2A%21%5D", "[*!]") // the place holder is percent-encoded in query patterns
 	if m := rxPnPatX.FindStringSubmatch(s); m != nil {
 		k, _ := strconv.Atoi(m[1])
 		return map[string]interface{}{"ax": "x", "key": k}
@@ -95,6 +124,20 @@ func pnPattern(s string) map[string]interface{} {
 	}
 	if s == "https://"+pagerHost+"/zqs/view/[*!]" || s == "https://"+pagerHost+"/zqs/[*!]" {
 		return map[string]interface{}{"ax": "v", "key": 0}
+	}
+	if s == "https://"+pagerHost+"/zqs/view-[*!].html" {
+		return map[string]interface{}{"ax": "f", "key": 0}
+	}
+	if s == "https://"+pagerHost+"/zqs/view?pg=[*!]" {
+		return map[string]interface{}{"ax": "q", "key": 0}
+	}
+	if m := rxPnPatA.FindStringSubmatch(s); m != nil {
+		k, _ := strconv.Atoi(m[1])
+		return map[string]interface{}{"ax": "qa", "key": k}
+	}
+	if m := rxPnPatB.FindStringSubmatch(s); m != nil {
+		k, _ := strconv.Atoi(m[1])
+		return map[string]interface{}{"ax": "qb", "key": k}
 	}
 	return map[string]interface{}{"ax": "other", "key": 0}
 }
@@ -149,10 +192,11 @@ func runPN(c Case, e *env) []Event {
 	}
 	g := newDocGen(e.seed, c.ID)
 	r := g.rng
-	grid := p.Doc.K == "grid"
+	fam := p.Doc.K
 	for _, it := range p.Items {
-		if it.U.K == "grid" {
-			grid = true
+		switch it.U.K {
+		case "grid", "one", "file", "q", "q2":
+			fam = it.U.K
 		}
 	}
 	var parts []string
@@ -169,16 +213,17 @@ func runPN(c Case, e *env) []Event {
 		case it.U.K == "js":
 			parts = append(parts, fmt.Sprintf(`<a href="javascript:go(1)">%d</a>`, it.N))
 		default:
-			href := pnString(it.U, grid)
+			href := pnString(it.U, fam)
 			if r.Intn(2) == 0 {
 				href = strings.TrimPrefix(href, "https://"+pagerHost)
 			}
+			href = strings.ReplaceAll(href, "&", "&amp;")
 			parts = append(parts, fmt.Sprintf(`<a href="%s">%s</a>`, href, pickS(r, fmt.Sprint(it.N), fmt.Sprintf("[%d]", it.N), fmt.Sprintf("(%d)", it.N))))
 		}
 	}
 	pager := `<div>` + strings.Join(parts, pickS(r, " ", " | ", "\n")) + `</div>`
 	page := pagerPage(g, pager)
-	pageURL := pnString(p.Doc, grid)
+	pageURL := pnString(p.Doc, fam)
 	if pageURL == "" {
 		return []Event{{"ev": "Skip", "run": c.ID, "why": "no page url"}}
 	}
